@@ -80,6 +80,14 @@ CHECKS["C19"] = dict(
    note="Trusted: Lean kernel, the table extractor (adapters + module-cache tss-lib), harness. Assumed: URL naming scheme (cross-checked on captured messages); tss-lib rounds not modelled; the sender-mismatch branch is unreachable through the wire format.",
    technique="Lean 4 kernel-decided theorems over regenerated tables + differential runs of the real adapters")
 
+CHECKS["C06"] = dict(
+   text="Lean 4 theorems for every membership map (any finite node->party association, injective or not, any identifiers) and every agreed node list: Init receives the sorted, duplicate-free party identifiers of the agreed nodes; "
+        "a session with two nodes of one party is refused (iff); every message is attributed to the party of its authenticated source; a point-to-point message goes to exactly the node that represents the addressed party in this session, "
+        "to nobody for parties outside it; translation round-trips. Tie: differential runs of the real KeyGen and Sign paths under six families of maps.",
+   design="4/C06",
+   note="Trusted: Lean kernel, Model/Translate.lean (tied by real KeyGen/Sign runs with scripted synchroniser and backend), harness. Assumed: agreed list from C07, authenticated sources from C16.",
+   technique="Lean 4 proof over arbitrary finite maps + differential correspondence through the real session set-up paths")
+
 NOT_YET = {}
 
 def main():
